@@ -31,15 +31,25 @@ def main():
     ap.add_argument("--runs", type=int)
     ap.add_argument("--only", default="")
     ap.add_argument("--tier", default="quick")
+    ap.add_argument("--patch", help="run against this single patch file instead of the catalogue")
+    ap.add_argument("--expect", default="caught")
+    ap.add_argument("--seed")
     args = ap.parse_args()
     d = os.path.join(VERIF, "selftest", args.engine)
-    patches = sorted(f for f in os.listdir(d) if f.endswith(".patch") and args.only in f)
+    if args.patch:
+        patches = [os.path.abspath(args.patch)]
+    else:
+        patches = sorted(f for f in os.listdir(d) if f.endswith(".patch") and args.only in f)
     bad = 0
     for name in patches:
         path = os.path.join(d, name)
-        with open(path) as f:
-            first = f.readline()
-        expect = first.split(":", 1)[1].strip()
+        if args.patch:
+            expect = args.expect
+            name = os.path.basename(os.path.dirname(path)) + "_" + os.path.basename(path)
+        else:
+            with open(path) as f:
+                first = f.readline()
+            expect = first.split(":", 1)[1].strip()
         root = make_scratch(name.split(".")[0])
         try:
             r = subprocess.run(["patch", "-p1", "-s", "-d", root, "-i", path], capture_output=True, text=True)
@@ -48,6 +58,8 @@ def main():
                 bad += 1
                 continue
             env = dict(os.environ, VERIF_REPO=root, VERIF_OUT=os.path.join(root, "_out"))
+            if args.seed:
+                env["VERIF_SEED"] = args.seed
             cmd = [sys.executable, os.path.join(VERIF, "bin", "check.py"), args.engine, "--tier", args.tier]
             if args.runs:
                 cmd += ["--runs", str(args.runs)]
@@ -62,6 +74,10 @@ def main():
                 bad += 1
                 print(r.stdout[-1500:])
                 print(r.stderr[-1500:])
+            if args.patch and os.path.isdir(os.path.join(root, "_out", "replays")):
+                keep = os.path.join(os.path.dirname(path), "replays_found")
+                shutil.rmtree(keep, ignore_errors=True)
+                shutil.copytree(os.path.join(root, "_out", "replays"), keep)
         finally:
             shutil.rmtree(root, ignore_errors=True)
     print(f"selftest {args.engine}: {len(patches) - bad}/{len(patches)} as expected")
